@@ -2,5 +2,6 @@ SPECIFICATION TSpec
 CONSTANTS
   CheckTrailer = TRUE
   UpdateWatchdog = FALSE
+  WaitOrigins = FALSE
   Bound = 10
 INVARIANT Explained
